@@ -121,8 +121,8 @@ MANIFEST_TEXT = {
   "note": "Trusted: harness, reference codec, model of the set of unreleased identifiers.",
   "technique": RM + "exactly-once check of stream items against a model of unreleased QoS 2 identifiers"},
  "C10": {
-  "text": "Held on all histories up to the depth bound for R in {1,2,3}, on fill-to-the-limit runs for larger R including 65535/absent, with conservation checked at every step through hook H3 and by black-box probes.",
-  "note": "Trusted: harness, model; H3 snapshots are auxiliary (the black-box probe decides on its own). Debug and release arithmetic both run.",
+  "text": "Held on all histories up to the depth bound for R in {1,2,3}, on fill-to-the-limit runs for larger R including 65535/absent, and on resumed connections whose CONNACK announces any relation of R to the number of re-sent handshakes, with conservation checked at every step through hook H3 and by black-box probes.",
+  "note": "Trusted: harness, model; H3 snapshots are auxiliary (the black-box probe decides on its own). Debug and release arithmetic both run. On a resumed connection with fewer slots than re-sent handshakes nothing is asserted about the quota. Stray acknowledgements are judged only while nothing is outstanding (auxiliary).",
   "technique": RM + "conservation invariant (hooked state) + black-box quota probes over enumerated histories"},
  "C13": {
   "text": "Each terminating cause was injected in each enumerated session state and the returned value compared with the documented outcome; also checked that run() does not return without a cause.",
@@ -149,7 +149,7 @@ add("C17", "fault_enumeration",
     ["hook H1 (feature verif) is the only way to reach the resume path: production code never records a disconnection", "elapsed times are kept >= 6 s away from the expiry boundary so the wall clock cannot decide a verdict"])
 MANIFEST_TEXT["C17"] = {
   "text": "The disconnection was injected after every bounded history and for expiry 0 / finite (before and after expiry) / never; the second connection's wire and the completion of the original futures were compared with the model.",
-  "note": "Trusted: harness, reference codec, model, hook H1 (sets the disconnection timestamp, nothing else). Not asserted (not stated by the property): quota after resume, CONNACK without session present, differing expiry intervals.",
+  "note": "Trusted: harness, reference codec, model, hook H1 (sets the disconnection timestamp, nothing else). The CONNACK of the resuming connection may override the expiry interval and announce its own Receive Maximum (below / at / above the number of unfinished handshakes) and Maximum Packet Size. Not asserted (not stated by the property): CONNACK without session present for an unexpired session.",
   "technique": RM + "crash-point enumeration + wire-trace comparison against a model of unfinished handshakes"}
 
 add("C01", "exploration",
@@ -196,9 +196,10 @@ add("C12", "exploration",
     "for each request (publish QoS 0/1/2, subscribe, unsubscribe, ping, disconnect; option sets giving an encoded length L from 2 to ~70 000 incl. every L in a band around 127/128 and 16383/16384, thorough: every L in 2..2100) "
     "L is measured by running the identical request on a twin session without limit; then the request runs against Maximum Packet Size M in {L-1, L/2, L, L+1, 1, 2^32-1, absent} x Receive Maximum {1,2}: "
     "L > M must give MaximumPacketSizeExceeded with zero bytes written, unchanged H3 state (quota, pending acks, stream registrations, retransmit queue), an intact quota (black-box probe) and no completion on a stray acknowledgement; "
-    "L <= M must write exactly the twin's bytes. distinct = distinct (request, M, R).",
+    "L <= M must write exactly the twin's bytes. The same Context is also connected a second time (plain / expired session / resumed session) with another M or none in the second CONNACK: the second CONNACK alone decides. "
+    "distinct = distinct (request, M, R) and (request, M first, M second, reconnect mode).",
     {"quick": ["checked", "fast"], "thorough": ["checked", "fast"]},
-    {"quick": {"oversized_requests": 500, "fitting_requests": 500, "h3_state_comparisons": 300, "quota_probes": 200}, "thorough": {"oversized_requests": 10000}})
+    {"quick": {"oversized_requests": 500, "fitting_requests": 500, "h3_state_comparisons": 300, "quota_probes": 200, "second_connection_cases": 200}, "thorough": {"oversized_requests": 10000}})
 MANIFEST_TEXT["C12"] = {
   "text": "Held for every generated (request, M, R): oversized requests refused with MaximumPacketSizeExceeded, nothing written and nothing left behind; fitting requests written in full.",
   "note": "Trusted: mocks, hook H3 for the `nothing left behind` state comparison (black-box probes decide independently for quota and pending acknowledgements).",
